@@ -44,7 +44,11 @@ var wsTexts = []string{`null`, `[]`, `{}`, `5`, `"x"`, `{"type":null}`, `{"type"
 	`{"type":"complete","id":"2"}`, `{"type":"complete","id":[]}`, `{"type":"ping"}`, `{"type":"ping","payload":5}`, `{"type":"pong","payload":"x"}`, `{"type":"connection_terminate"}`,
 	`{"type":"connection_ack"}`, `{"type":"ka"}`, `{"type":"data","id":"1","payload":{}}`, `{"type":"next","id":"2","payload":null}`, `{"type":"error","id":"1","payload":[]}`,
 	`{"type":"connection_init"} trailing`, `{"type":"connection_init"}{"type":"start"}`, "\xff\xfe", `{"type":"\ud800"}`, ``, `{`, `{"type":"start","id":"1","payload":{"query":"{ ok }"}`,
-	`{"TYPE":"connection_init"}`, `{"type":"connection_init","payload":{"Authorization":["a","b"]}}`}
+	`{"TYPE":"connection_init"}`, `{"type":"connection_init","payload":{"Authorization":["a","b"]}}`,
+	// init payloads whose values are not strings, read by the server's init function through
+	// InitPayload.Authorization / GetString
+	`{"type":"connection_init","payload":{"Authorization":12345}}`, `{"type":"connection_init","payload":{"Authorization":{"a":1},"k":true}}`,
+	`{"type":"connection_init","payload":{"k":[1],"authorization":1.5}}`, `{"type":"connection_init","payload":{"Authorization":null,"k":"v"}}`}
 
 func genFrame(t *rapid.T) WFrame {
 	switch rapid.IntRange(0, 9).Draw(t, "fk") {
@@ -79,7 +83,7 @@ func checkWS(c WSCase) *vfrun.Failure {
 	s := ss[0]
 	kit.Journal(map[string]any{"ws": c})
 	var recovers atomic.Int64
-	h := hsrv.New(s, hsrv.Config{Transports: []string{"websocket", "post"}, Recovers: &recovers})
+	h := hsrv.New(s, hsrv.Config{Transports: []string{"websocket", "post"}, Recovers: &recovers, WSInitReads: true})
 	s.U.SetExec(univ.NewExec(plan.New(5)))
 	srv := httptest.NewServer(h)
 	defer srv.Close()
